@@ -245,6 +245,19 @@ func (c *Ctx) c03Cases(n int) []c03Case {
 		}
 	}
 	c.Rep.Dist["corpus-crashers"] = len(crashers)
+	// size limits of the position encoding (16 bits for line and for column): faults, compile errors and
+	// parse errors beyond line / column 65535, at top level and inside functions and methods
+	for _, pad := range []int{65534, 65535, 65536, 65540, 70000, 131072 + 5, 200000} {
+		for _, body := range []string{
+			"x := []int{1}\nx[5]\n", "func f() int {\nx := []int{1}\nreturn x[5]\n}\nf()\n",
+			"type T struct {\nA int\n}\nfunc (t *T) M() int {\nreturn t.A\n}\nvar p *T\np.M()\n",
+			"func f() {\npanic(\"boom\")\n}\nfunc g() {\nf()\n}\ng()\n", "x := (\n", "import 5\n", "x := 1 / (1 - 1)\n",
+		} {
+			cases = append(cases, c03Case{Kind: "eval", Src: strings.Repeat("\n", pad) + body, Opts: r.Intn(16)})
+			cases = append(cases, c03Case{Kind: "eval", Src: strings.Repeat(" ", pad) + strings.ReplaceAll(strings.TrimSuffix(body, "\n"), "\n", "; ") + "\n", Opts: r.Intn(16)})
+			c.Rep.Count("eval-position-limits")
+		}
+	}
 	for i := 0; i < n; i++ {
 		k := c03Case{Opts: r.Intn(16)}
 		switch kind := r.Intn(100); {
